@@ -114,6 +114,8 @@ pub struct EvidenceInfo {
     pub components_real: Vec<String>,
     pub components_stub: Vec<String>,
     pub step_unit: &'static str,
+    /// what one "distinct history" is
+    pub history_measure: &'static str,
 }
 
 pub trait Property: Sync + Send {
@@ -743,6 +745,7 @@ fn write_evidence(
             J::s("none: the code under test reads no clock and has no timers; progress is measured in steps"),
         ),
         ("distinct_histories", J::U(res.distinct_histories)),
+        ("distinct_histories_measure", J::s(info.history_measure)),
         ("faults_configured", res.stats.to_json_prefixed("fault.configured.")),
         ("faults_fired", res.stats.to_json_prefixed("fault.fired.")),
         ("probes", res.stats.to_json_prefixed("probe.")),
